@@ -290,6 +290,143 @@ theorem parseAtom_formatParam (k v : Bytes) (hk : Clean 0x3D k) (hks : pyStrip k
         exact strip_noop _ _ (fun b hb => by simpa using hq b hb)
       rw [this]
 
+/-! ### all parameters through the field -/
+
+/-- no white space at either end, and not empty -/
+def Tight (f : Bytes) : Prop := ∃ a t, f = a :: t ∧ isPySpace a = false ∧ ∃ u z, f = u ++ [z] ∧ isPySpace z = false
+
+theorem pyStrip_tight (f : Bytes) (h : Tight f) : pyStrip f = f ∧ pyStrip (0x20 :: f) = f := by
+  obtain ⟨a, t, e1, ha, u, z, e2, hz⟩ := h
+  have h1 : pyStrip f = f := by
+    unfold pyStrip strip
+    rw [e1, lstrip_head _ _ _ ha, ← e1, e2, rstrip_snoc _ _ _ hz]
+  refine ⟨h1, ?_⟩
+  have : lstrip isPySpace (0x20 :: f) = lstrip isPySpace f := by
+    simp [lstrip, List.dropWhile, isPySpace]
+  unfold pyStrip strip at h1 ⊢
+  rw [this]; exact h1
+
+theorem splitOn1_cons_ne (c a : Byte) (r : Bytes) (h : (a == c) = false) :
+    ∃ hd tl, splitOn1 c r = hd :: tl ∧ splitOn1 c (a :: r) = (a :: hd) :: tl := by
+  cases hs : splitOn1 c r with
+  | nil => exact absurd hs (splitOn1_ne_nil c r)
+  | cons hd tl => exact ⟨hd, tl, rfl, by simp [splitOn1, h, hs]⟩
+
+/-- splitting ", "-joined comma-free items gives them back, each but the first with its leading space -/
+theorem split_join_comma (F : List Bytes) (hF : ∀ f ∈ F, Clean 0x2C f) (hne : F ≠ []) :
+    (splitOn1 0x2C (joinWith [0x2C, 0x20] F)).map pyStrip = F.map pyStrip := by
+  induction F with
+  | nil => exact absurd rfl hne
+  | cons f F ih =>
+    cases F with
+    | nil => simp [joinWith, splitOn1_clean 0x2C f (hF f (by simp))]
+    | cons g G =>
+      have e : joinWith [0x2C, 0x20] (f :: g :: G) = f ++ 0x2C :: (0x20 :: joinWith [0x2C, 0x20] (g :: G)) := by
+        simp [joinWith]
+      obtain ⟨hd, tl, hs, hs2⟩ := splitOn1_cons_ne 0x2C 0x20 (joinWith [0x2C, 0x20] (g :: G)) (by decide)
+      rw [e, splitOn1_append 0x2C f _ (hF f (by simp)), hs2]
+      have ih' := ih (fun x hx => hF x (by simp [hx])) (by simp)
+      rw [hs] at ih'
+      simp only [List.map_cons] at ih' ⊢
+      have h2 : pyStrip (0x20 :: hd) = pyStrip hd := by
+        unfold pyStrip strip
+        have : lstrip isPySpace (0x20 :: hd) = lstrip isPySpace hd := by simp [lstrip, List.dropWhile, isPySpace]
+        rw [this]
+      rw [h2]
+      injection ih' with i1 i2
+      rw [i1, i2]
+
+/-- a key as the schemes use them: non-empty, no white space at the ends, no `=`, no comma -/
+structure KeyOK (k : Bytes) : Prop where
+  tight : Tight k
+  noeq : Clean 0x3D k
+  nocomma : Clean 0x2C k
+
+/-- a value the field can carry (finding F20c is the complement) -/
+structure ValOK (v : Bytes) : Prop where
+  nocomma : Clean 0x2C v
+  noquote : Clean 0x22 v
+  nobackslash : Clean 0x5C v
+  shape : v = [] ∨ v.any isTSpecial = true ∨ Tight v
+
+theorem ValOK.strip {v : Bytes} (h : ValOK v) : v.any isTSpecial = true ∨ pyStrip v = v := by
+  rcases h.shape with h1 | h1 | h1
+  · right; subst h1; rfl
+  · left; exact h1
+  · right; exact (pyStrip_tight v h1).1
+
+theorem formatParam_tight_clean (k v : Bytes) (hk : KeyOK k) (hv : ValOK v) :
+    Tight (formatParam k v) ∧ Clean 0x2C (formatParam k v) := by
+  obtain ⟨a, t, e1, ha, u, z, e2, hz⟩ := hk.tight
+  unfold formatParam
+  by_cases he : v.isEmpty = true
+  · rw [if_pos he]; exact ⟨hk.tight, hk.nocomma⟩
+  · rw [if_neg he]
+    have hne : v ≠ [] := by simpa using he
+    by_cases hts : v.any isTSpecial = true
+    · rw [if_pos hts, escapeQuoted_clean v hv.noquote hv.nobackslash]
+      refine ⟨⟨a, t ++ [0x3D, 0x22] ++ v ++ [0x22], by simp [e1], ha, k ++ [0x3D, 0x22] ++ v, 0x22, by simp, by decide⟩, ?_⟩
+      intro b hb
+      simp only [List.mem_append, List.mem_cons, List.mem_nil_iff, or_false] at hb
+      rcases hb with ((hb | hb | hb) | hb) | hb
+      · exact hk.nocomma b hb
+      · subst hb; decide
+      · subst hb; decide
+      · exact hv.nocomma b hb
+      · subst hb; decide
+    · rw [if_neg hts]
+      obtain ⟨_, _, _, _, w, y, ev, hy⟩ : Tight v := by
+        rcases hv.shape with h | h | h
+        · exact absurd h hne
+        · exact absurd h hts
+        · exact h
+      refine ⟨⟨a, t ++ 0x3D :: v, by simp [e1], ha, k ++ 0x3D :: w, y, by simp [ev], hy⟩, ?_⟩
+      intro b hb
+      simp only [List.mem_append, List.mem_cons] at hb
+      rcases hb with hb | hb | hb
+      · exact hk.nocomma b hb
+      · subst hb; decide
+      · exact hv.nocomma b hb
+
+/-- **every parameter survives the field, in order, any number of parameters**: what `DigestAuthScheme.parse`
+    makes of the atoms of the composed field is the list of (key, value) pairs that went in -/
+theorem params_roundtrip (ps : List (Bytes × Bytes)) (hne : ps ≠ [])
+    (hk : ∀ p ∈ ps, KeyOK p.1) (hv : ∀ p ∈ ps, ValOK p.2) :
+    (((splitOn1 0x2C (joinWith [0x2C, 0x20] (ps.map fun p => formatParam p.1 p.2))).map pyStrip).filter
+        (fun x => !x.isEmpty)).map parseAtom = ps := by
+  have hF : ∀ f ∈ ps.map (fun p => formatParam p.1 p.2), Clean 0x2C f := by
+    intro f hf
+    obtain ⟨p, hp, rfl⟩ := List.mem_map.mp hf
+    exact (formatParam_tight_clean p.1 p.2 (hk p hp) (hv p hp)).2
+  rw [split_join_comma _ hF (by simpa using hne)]
+  rw [List.map_map]
+  have hid : ∀ p ∈ ps, (pyStrip ∘ fun p => formatParam p.1 p.2) p = formatParam p.1 p.2 := fun p hp =>
+    (pyStrip_tight _ (formatParam_tight_clean p.1 p.2 (hk p hp) (hv p hp)).1).1
+  rw [List.map_congr_left hid]
+  have hfil : (ps.map fun p => formatParam p.1 p.2).filter (fun x => !x.isEmpty) = ps.map fun p => formatParam p.1 p.2 := by
+    apply List.filter_eq_self.mpr
+    intro f hf
+    obtain ⟨p, hp, rfl⟩ := List.mem_map.mp hf
+    obtain ⟨a, t, e, _⟩ := (formatParam_tight_clean p.1 p.2 (hk p hp) (hv p hp)).1
+    simp [e]
+  rw [hfil, List.map_map]
+  have hpa : ∀ p ∈ ps, (parseAtom ∘ fun p => formatParam p.1 p.2) p = p := by
+    intro p hp
+    have hK := hk p hp
+    have hV := hv p hp
+    show parseAtom (formatParam p.1 p.2) = p
+    rw [parseAtom_formatParam p.1 p.2 hK.noeq (pyStrip_tight _ hK.tight).1 hV.noquote hV.nobackslash hV.strip]
+  rw [List.map_congr_left hpa]
+  simp
+
+/-- the statement on the parameters of the RFC 2617 example (quoted and unquoted values, '=', '/', '@', spaces) -/
+theorem c17_params_witness :
+    let ps : List (Bytes × Bytes) := [(key "username", "Mufasa".toUTF8.toList), (key "realm", "testrealm@host.com".toUTF8.toList),
+      (key "uri", "/dir/index.html?a=b c".toUTF8.toList), (key "qop", "auth".toUTF8.toList), (key "opaque", [])]
+    (((splitOn1 0x2C (joinWith [0x2C, 0x20] (ps.map fun p => formatParam p.1 p.2))).map pyStrip).filter
+        (fun x => !x.isEmpty)).map parseAtom = ps := by
+  decide +kernel
+
 /-- F20c on the model: a comma inside a (quoted) value cuts it -/
 theorem c17_comma_witness :
     (parseField (("Digest ".toUTF8.toList) ++ formatParam "username".toUTF8.toList "Mu,fasa".toUTF8.toList ++
